@@ -75,7 +75,9 @@ def script_for(name, kind, r, model):
     if kind == "package":
         for tname, t in sorted((r.get("ptools") or {}).items()):
             lines.append("mkdir -p %s" % t.get("path", "bin"))
-            lines.append("printf '#!/bin/sh\\necho id-%s-%s\\n' > %s/tool-%s; chmod +x %s/tool-%s" % (tname, tok, t.get("path", "bin"), tname, t.get("path", "bin"), tname))
+            # the tool's behaviour depends on everything its package consumed (its manifest), not only on the recipe
+            lines.append("cat > %s/tool-%s <<'EOT'\n#!/bin/sh\necho \"id-%s-%s $(sha1sum < \"$(dirname \"$0\")/../manifest.txt\" | cut -c1-12)\"\nEOT\nchmod +x %s/tool-%s"
+                         % (t.get("path", "bin"), tname, tname, tok, t.get("path", "bin"), tname))
             for l in t.get("libs", []):
                 lines.append("mkdir -p %s; echo lib-%s > %s/lib.txt" % (l, tok, l))
     if model.get("evlog"):
@@ -258,7 +260,10 @@ def gen_model(rnd, n=6, features=()):
             r["inherit"] = rnd.sample(sorted(model["classes"]), rnd.randrange(1, len(model["classes"]) + 1))
         # dependencies to higher indices
         cands = names[i + 1:]
-        for dname in rnd.sample(cands, min(len(cands), rnd.choice([0, 1, 1, 2, 2, 3]))):
+        ndeps = rnd.choice([0, 1, 1, 2, 2, 3])
+        if i == 0:
+            ndeps = max(ndeps, 2)       # the root should reach something
+        for dname in rnd.sample(cands, min(len(cands), ndeps)):
             d = {"name": dname}
             if rnd.random() < 0.4:
                 d["env"] = {rnd.choice(VARNAMES): rnd.choice(VALS)}
@@ -354,3 +359,111 @@ def reachable(model):
         else:
             idx[n_] = r
     return idx
+
+
+def focused_model(rnd):
+    """A fixed-shape project in which every mechanism of the incremental build logic has exactly one obvious consumer:
+    root(build: strong vars X, PV, DV; weak W; strong tool t1; class cls) -> lib(src, build: Y, DV; provides PV) -> base(src, det. checkout script)
+    root -> tl (provides tool t1 with libs), root -> mp-a / mp-b (multiPackage)."""
+    T = lambda: new_tok(rnd)
+    k0 = lambda: {k: [] for k in KINDS}
+    m = {"recipes": {}, "classes": {}, "sources": {}, "defines": {}, "default": {}, "evlog": True}
+    m["classes"]["cls"] = {"vars": {"checkout": [], "build": ["CV"], "package": []}, "tok": {"checkout": None, "build": T(), "package": None}, "env": {"CV": "0"}}
+    m["recipes"]["root"] = {"root": True, "inherit": ["cls"], "env": {"X": "0", "W": "w0", "Z": "1"}, "penv": {}, "menv": {"LICENSE": "MIT"},
+        "vars": {"checkout": [], "build": ["X", "PV"], "package": ["Z"]}, "weak": {"checkout": [], "build": ["W"], "package": []},
+        "tok": {"checkout": None, "build": T(), "package": T()}, "tools": {"checkout": [], "build": ["t1"], "package": []}, "toolsWeak": k0(),
+        "depends": [{"name": "lib", "env": {"DV": "0"}, "use": ["result", "environment", "deps"]}, {"name": "tl", "use": ["tools"]},
+                    {"name": "mp-a"}, {"name": "mp-b", "env": {"DV": "1"}}]}
+    m["recipes"]["lib"] = {"env": {"Y": "1"}, "vars": {"checkout": [], "build": ["Y", "DV"], "package": []}, "weak": k0(), "src": True,
+        "tok": {"checkout": None, "build": T(), "package": T()}, "pvars": {"PV": "fast"}, "tools": k0(), "toolsWeak": k0(),
+        "depends": [{"name": "base"}]}
+    m["recipes"]["base"] = {"env": {}, "vars": k0(), "weak": k0(), "src": True, "cdet": True,
+        "tok": {"checkout": T(), "build": T(), "package": T()}, "tools": k0(), "toolsWeak": k0(), "depends": []}
+    m["recipes"]["tl"] = {"env": {}, "vars": k0(), "weak": k0(), "src": True, "tok": {"checkout": None, "build": T(), "package": T()},
+        "ptools": {"t1": {"path": "bin", "libs": ["lib"], "env": {"TE": "0"}}}, "tools": k0(), "toolsWeak": k0(), "depends": [{"name": "base"}]}
+    m["recipes"]["mp"] = {"env": {}, "vars": {"checkout": [], "build": ["DV"], "package": []}, "weak": k0(), "tok": {"checkout": None, "build": T(), "package": None},
+        "tools": k0(), "toolsWeak": k0(), "depends": [],
+        "multi": {"a": {"tok": {"checkout": None, "build": None, "package": T()}, "vars": k0()},
+                  "b": {"tok": {"checkout": None, "build": T(), "package": T()}, "vars": k0(), "env": {"MP": "b"}}}}
+    m["sources"] = {"lib": {"a.c": "a-" + T(), "sub/b.h": "b-" + T()}, "base": {"base.txt": "base-" + T()}, "tl": {"tool.c": "tool-" + T()}}
+    return m
+
+
+def focused_edits(rnd):
+    """list of (label, fn(model)) single-factor edits for focused_model"""
+    T = lambda: new_tok(rnd)
+    sw = {"0": "1", "1": "0", "fast": "true", "true": "fast", "w0": "w1", "w1": "w0"}
+    def setv(path, key):
+        def f(m):
+            d = m
+            for p in path:
+                d = d[p]
+            d[key] = sw.get(d[key], "0")
+        return f
+    def tool(field):
+        def f(m):
+            t = m["recipes"]["tl"]["ptools"]["t1"]
+            if field == "path": t["path"] = "bin2" if t["path"] == "bin" else "bin"
+            elif field == "libs": t["libs"] = [] if t["libs"] else ["lib"]
+            else: t["env"]["TE"] = sw.get(t["env"]["TE"], "0")
+        return f
+    def src(name, op):
+        def f(m):
+            files = m["sources"][name]
+            if op == "mod": files[sorted(files)[0]] = "mod-" + T()
+            elif op == "add": files["new-%s.c" % T()] = "new"
+            else:
+                extra = [x for x in files if x.startswith("new-")]
+                if extra: del files[extra[0]]
+                else: files["new-x.c"] = "x"
+        return f
+    def tok(rec, kind, container="recipes"):
+        def f(m): m[container][rec]["tok"][kind] = T()
+        return f
+    def define(v):
+        def f(m):
+            d = m["defines"]
+            if v in d: del d[v]
+            else: d[v] = "1"
+        return f
+    def dflt(v):
+        def f(m):
+            e = m["default"].setdefault("environment", {})
+            e[v] = sw.get(e.get(v, "1"), "0")
+        return f
+    def depenv(i):
+        def f(m):
+            d = m["recipes"]["root"]["depends"][i]
+            d["env"]["DV"] = sw.get(d["env"]["DV"], "0")
+        return f
+    def move_weak(m):
+        r = m["recipes"]["root"]
+        if "X" in r["vars"]["build"]:
+            r["vars"]["build"].remove("X"); r["weak"]["build"].append("X")
+        else:
+            r["weak"]["build"].remove("X"); r["vars"]["build"].append("X")
+    def drop_dep(m):
+        r = m["recipes"]["root"]
+        if any(d["name"] == "mp-a" for d in r["depends"]):
+            r["depends"] = [d for d in r["depends"] if d["name"] != "mp-a"]
+        else:
+            r["depends"].append({"name": "mp-a"})
+    return [
+        ("root-build-var-samelen", setv(["recipes", "root", "env"], "X")),
+        ("root-package-var-samelen", setv(["recipes", "root", "env"], "Z")),
+        ("root-weak-var", setv(["recipes", "root", "env"], "W")),
+        ("lib-build-var-samelen", setv(["recipes", "lib", "env"], "Y")),
+        ("dep-env-samelen", depenv(0)),
+        ("multipackage-dep-env-samelen", depenv(3)),
+        ("provided-var-samelen", setv(["recipes", "lib", "pvars"], "PV")),
+        ("class-var-samelen", setv(["classes", "cls", "env"], "CV")),
+        ("tool-content", tok("tl", "package")),
+        ("tool-build-script", tok("tl", "build")),
+        ("tool-path", tool("path")), ("tool-libs", tool("libs")), ("tool-env", tool("env")),
+        ("tool-source-mod", src("tl", "mod")), ("lib-source-mod", src("lib", "mod")), ("base-source-mod", src("base", "mod")), ("lib-source-add", src("lib", "add")), ("lib-source-del", src("lib", "del")),
+        ("class-build-script", tok("cls", "build", "classes")),
+        ("base-checkout-script", tok("base", "checkout")), ("base-package-script", tok("base", "package")),
+        ("mp-parent-build-script", tok("mp", "build")),
+        ("define-X", define("X")), ("define-DV", define("DV")), ("default-env-Y", dflt("Y")), ("default-env-unused", dflt("UNUSED")),
+        ("strong<->weak-X", move_weak), ("dep-remove/add", drop_dep),
+    ]
